@@ -178,6 +178,16 @@ def build_goto(t, wd, variant_defs, mode_defs, tag):
     if rc != 0:
         raise Undecided("goto-cc failed (harness no longer compiles against "
                         "the tree):\n" + (out + err)[-3000:])
+    if t.get("gi_flags") and not (t["mode"] == "dfcc" and
+                                  "VMODE_CONTRACT" in " ".join(mode_defs)):
+        # plain mode with a goto-instrument pass (e.g. --replace-calls f:stub)
+        gi = os.path.join(wd, tag + ".gi.gb")
+        cmd = ["goto-instrument"] + t["gi_flags"] + [gb, gi]
+        cmds.append(cmd)
+        rc, out, err, _ = sh(cmd, 600)
+        if rc != 0:
+            raise Undecided("goto-instrument failed:\n" + (out + err)[-3000:])
+        gb = gi
     if t["mode"] == "dfcc" and "VMODE_CONTRACT" in " ".join(mode_defs):
         gi = os.path.join(wd, tag + ".i.gb")
         cmd = ["goto-instrument", "--dfcc", t.get("entry", "harness")]
@@ -376,7 +386,10 @@ def native_replay(t, wd, witness_lines, mode_defs, variant_defs=()):
            ["-D" + d for d in t.get("defines", [])] + list(mode_defs) +
            list(variant_defs) + [src] +
            [xsrc(s) for s in t.get("extra_sources", [])] +
-           [lib, "-lcrypto", "-lm", "-lpthread", "-o", exe])
+           # harness stubs come first on the link line and win over the
+           # library's definitions of the same functions
+           ["-Wl,--allow-multiple-definition", lib, "-lcrypto", "-lm",
+            "-lpthread", "-o", exe])
     rc, out, err, _ = sh(cmd, 300)
     if rc != 0:
         return dict(built=False, log=(out + err)[-3000:], cmd=cmd)
@@ -449,7 +462,7 @@ def replay_failure(t, wd, failed, tier):
     return info
 
 
-def run_variant(t, tier, neg=None, keep=False):
+def run_variant(t, tier, neg=None, keep=False, sweep=None):
     """One CBMC run of a target: the proof itself (neg is None) or one
     must-fail control (-DVNEG=k)."""
     tid = t["id"]
@@ -462,6 +475,10 @@ def run_variant(t, tier, neg=None, keep=False):
         mode_defs = ["-DVMODE_CONTRACT"] if t["mode"] == "dfcc" \
             else ["-DVMODE_PLAIN"]
         vdefs = [] if neg is None else ["-DVNEG=%d" % neg]
+        if sweep is not None:
+            vdefs.append("-D%s=%s" % (t["sweep"]["define"], sweep))
+            tid = "%s[%s=%s]" % (t["id"], t["sweep"]["define"], sweep)
+            out["id"] = tid
         gb, cmds = build_goto(t, wd, vdefs, mode_defs,
                               "main" if neg is None else "neg%d" % neg)
         res = run_cbmc(t, gb, {}, t.get("timeout", 900), allow_unknown=True)
@@ -546,7 +563,13 @@ def run_variant(t, tier, neg=None, keep=False):
                     out["cbmc_trace_excerpt"] = steps[-120:]
                 except Undecided:
                     pass
-            out["replay"] = replay_failure(t, wd, bad, tier)
+            tt = t
+            if sweep is not None:
+                tt = dict(t)
+                tt["defines"] = t.get("defines", []) + [
+                    "%s=%s" % (t["sweep"]["define"], sweep)]
+            out["replay"] = replay_failure(tt, wd, bad, tier)
+            out["replay_defines"] = tt.get("defines", [])
             if failed:
                 out["status"] = "violation"
             elif out["replay"].get("confirmed"):
@@ -573,30 +596,57 @@ def run_variant(t, tier, neg=None, keep=False):
 
 def run_targets(targets, tier, jobs=16, keep=False):
     """runs proof + must-fail controls of all targets in parallel; returns
-    one aggregated record per target (same order as targets)."""
+    one aggregated record per target (same order as targets). A target with a
+    "sweep" runs its proof once per value of the swept define (exhaustive
+    enumeration of a small discrete parameter, each run symbolic in the rest)."""
     work = []
     for t in targets:
         negs = t.get("negs", [])
         if tier == "quick" and t.get("quick_negs") is not None:
             negs = t["quick_negs"]
-        work.append((t, None))
+        sw = t.get("sweep")
+        vals = [None]
+        if sw:
+            vals = list(range(sw["from"], sw["to"] + 1))
+        for v in vals:
+            work.append((t, None, v))
         for k in negs:
-            work.append((t, k))
+            work.append((t, k, sw["neg_value"] if sw else None))
     work.sort(key=lambda w: -w[0].get("cost", 1))
     with cf.ThreadPoolExecutor(jobs) as ex:
-        res = list(ex.map(lambda w: run_variant(w[0], tier, w[1], keep), work))
+        res = list(ex.map(lambda w: run_variant(w[0], tier, w[1], keep, w[2]),
+                          work))
     agg = []
     for t in targets:
-        main = [r for (w, r) in zip(work, res) if w[0] is t and w[1] is None][0]
+        mains = [r for (w, r) in zip(work, res) if w[0] is t and w[1] is None]
         negs = [r for (w, r) in zip(work, res) if w[0] is t and w[1] is not None]
-        out = dict(main)
+        out = dict(mains[0])
+        out["id"] = t["id"]
+        if len(mains) > 1:
+            out["obligations"] = [o for m in mains for o in m["obligations"]]
+            out["failures"] = [f for m in mains for f in m["failures"]]
+            out["cmds"] = mains[0]["cmds"]
+            bad = [m for m in mains if m["status"] == "violation"]
+            und = [m for m in mains if m["status"] == "undecided"]
+            if bad:
+                out["status"] = "violation"
+                out["replay"] = bad[0].get("replay")
+                out["replay_defines"] = bad[0].get("replay_defines")
+                out["cbmc_trace_excerpt"] = bad[0].get("cbmc_trace_excerpt")
+                out["failures"] = [f for m in bad for f in m["failures"]]
+            elif und:
+                out["status"] = "undecided"
+                out["undecided"] = "%s: %s" % (und[0]["id"], und[0]["undecided"])
+            else:
+                out["status"] = "ok"
+            out["sweep_runs"] = len(mains)
         out["negs"] = len(negs)
         out["negs_ok"] = sum(1 for n in negs if n["status"] == "ok")
-        out["solver"] = main["solver"] + sum(n["solver"] for n in negs)
-        out["wall"] = max([main["wall"]] + [n["wall"] for n in negs])
+        out["solver"] = sum(m["solver"] for m in mains) + sum(n["solver"] for n in negs)
+        out["wall"] = max([m["wall"] for m in mains] + [n["wall"] for n in negs])
         out["route"] = t.get("route")
         out["backend"] = t.get("backend", "sat")
-        if main["status"] == "ok":
+        if out["status"] == "ok":
             badn = [n for n in negs if n["status"] != "ok"]
             if badn:
                 out["status"] = "undecided"
@@ -754,7 +804,7 @@ def check_property(pid, tier):
         rp = VERIF + "/replays/%s.%s.json" % (t["id"], int(time.time()))
         rep = r.get("replay", {})
         json.dump(dict(property=pid, target=t["id"], harness=t["harness"],
-                       defines=t.get("defines", []),
+                       defines=r.get("replay_defines") or t.get("defines", []),
                        witness_defines=(t.get("witness") or {}).get("defines", []),
                        failed_obligations=rest,
                        functions=t.get("functions", []),
@@ -792,7 +842,9 @@ def cmd_replay(path):
     if not t:
         print("unknown target", rep["target"])
         return 2
-    t = t[0]
+    t = dict(t[0])
+    if rep.get("defines"):
+        t["defines"] = rep["defines"]
     print("property %s, target %s" % (rep["property"], rep["target"]))
     for f in rep["failed_obligations"][:8]:
         print("failed obligation: %s [%s] (%s:%s) %s" %
